@@ -10,9 +10,9 @@ import ast
 from typing import Dict, List, Optional, Set, Tuple
 
 from . import core
-from .shared_state import (CacheInfo, SharedWrite, World, recognise_cache, uses_of_attribute, value_dependencies)
+from .shared_state import (CacheInfo, SharedWrite, World, recognise_cache, uses_of_attribute, value_dependencies, write_is_definite)
 
-CACHE_KINDS = {"subscript-store", "method:append"}
+CACHE_KINDS = {"subscript-store:key", "subscript-store:const", "method:append"}
 
 _CONTROL = '''
 _tmp = [0.0, 0.0, 0.0]
@@ -78,10 +78,16 @@ def run(ctx):
     bad_owner_funcs: Set[str] = set()
     for sw in sorted(bad, key=lambda s: (s.name, s.owner)):
         bad_owner_funcs.add(sw.owner)
-        ctx.bad("C16.1", f"shared object {sw.name} is written by {sw.owner}", f"{w.rel_of(sw.origin_func)}:{sw.origin_line}",
-                f"`{sw.origin_text}` in {sw.origin_func} stores into module-level state ({', '.join(sorted(sw.kinds))}); reachable from the API via "
-                f"{w.path_to(sw.owner)}; another thread running the same code between this write and the later read changes the result",
-                call_path=w.model.call_path(w.reach, sw.owner))
+        where = f"{w.rel_of(sw.owner)}:{sw.owner_line or sw.origin_line}"
+        if write_is_definite(w.model, sw):
+            ctx.bad("C16.1", f"shared object {sw.name} is written by {sw.owner}", where,
+                    f"`{sw.origin_text}` in {sw.origin_func} (line {sw.origin_line}) stores into module-level state ({', '.join(sorted(sw.kinds))}); "
+                    f"reachable from the API via {w.path_to(sw.owner)}; another thread running the same code between this write and the later "
+                    f"read changes the result", call_path=w.model.call_path(w.reach, sw.owner))
+        else:
+            ctx.unk("C16.1", f"shared container {sw.name} is filled by {sw.owner}", where,
+                    f"`{sw.origin_text}` in {sw.origin_func} (line {sw.origin_line}; {', '.join(sorted(sw.kinds))}) is a keyed store that is not one of the "
+                    f"verified cache fills; whether racing fills store equal values is not decided (reachable via {w.path_to(sw.owner)})")
     # ---- caches ------------------------------------------------------------------------------------------
     for (func, fld), (ci, sws) in sorted(caches.items()):
         where = f"{w.rel_of(func)}:{w.model.funcs[func].node.lineno}"
